@@ -20,6 +20,46 @@ _SOH_INIT = ("    flow_function = [[0 for sh in range(dim)] for s in range(dim)]
 
 _SBS = "        for peerid in peers:\n            ret.setdefault(peerid, set()).add(shareid)\n"
 
+# ---- the duplicated loop extracted into happiness_upload.maximum_flow(graph) (seeded C08-I is this refactor with a slip)
+_U_OK = "            flow_function[u][v] += delta\n            flow_function[v][u] -= delta\n"
+_T_OK = ("        residual_graph, residual_function = residual_network(graph, flow_function)\n"
+         "        path = augmenting_path_for(residual_graph)\n")
+_B_OK = "    flow_function, _ = maximum_flow(graph)\n"
+_V_OLD = "    return sum([flow_function[0][v] for v in range(1, num_servers+1)])"
+_V_OK = "    return sum(flow_function[0][1:num_servers+1])"
+
+
+def _helper(mid, expect, update=_U_OK, tail=_T_OK, bind=_B_OK, value=_V_OK, ret="    return (flow_function, residual_graph)\n",
+            note=""):
+    """Both copies call a new helper that holds the loop (`path = ..; while path: ..; path = ..` form); `update` is the
+    body of the per-edge loop (and what follows it), `tail` the end of the while body, `bind` how servers_of_happiness
+    takes the result, `value` its return statement (None: unchanged)."""
+    edits = [
+        (HU, "    \"\"\"\n\n    if graph == []:\n        return {}\n\n    dim = len(graph)\n", "    \"\"\"\n    dim = len(graph)\n"),
+        (HU, "    while augmenting_path_for(residual_graph):\n        path = augmenting_path_for(residual_graph)\n",
+         "    path = augmenting_path_for(residual_graph)\n    while path:\n"),
+        (HU, "        for (u, v) in path:\n" + _U_OK +
+         "            residual_graph, residual_function = residual_network(graph,flow_function)\n\n    new_mappings = {}\n",
+         "        for (u, v) in path:\n" + update + tail + "\n" + ret + "\n\ndef _compute_maximum_graph(graph, shareIndices):\n"
+         "    if graph == []:\n        return {}\n\n    dim = len(graph)\n    _, residual_graph = maximum_flow(graph)\n\n"
+         "    new_mappings = {}\n"),
+        (HZ, "from allmydata.immutable.happiness_upload import residual_network\n"
+         "from allmydata.immutable.happiness_upload import augmenting_path_for\n",
+         "from allmydata.immutable.happiness_upload import maximum_flow\n"),
+        (HZ, "    dim = len(graph)\n" + _SOH_INIT[:-len("    while")] + _SOH_LOOP, bind),
+    ]
+    if value is not None:
+        edits.append((HZ, _V_OLD, value))
+    return M(mid, HU, "def _compute_maximum_graph(graph, shareIndices):\n", "def maximum_flow(graph):\n", expect, edits=edits,
+             note=note)
+
+
+_SOH_WHILE_PATH = (
+    "    path = augmenting_path_for(residual_graph)\n    while path:\n"
+    "        delta = min(residual_function[u][v] for (u, v) in path)\n"
+    "        for (u, v) in path:\n            flow_function[u][v] += delta\n            flow_function[v][u] -= delta\n"
+    "        residual_graph, residual_function = residual_network(graph, flow_function)\n")
+
 MUTANTS = [
     # ---- C08.1 freshness of the residual network
     M("soh-recompute-dropped", HZ,
@@ -230,6 +270,48 @@ MUTANTS = [
       "    snapshot = deepcopy(flow_function)\n    snapshot.append([])\n    out_of_source = list(flow_function[0])\n    out_of_source.append(0)\n"
       "    num_servers = len(servermap)\n    # The value of a flow", None,
       note="copies of the table / of a row may be changed freely"),
+
+    # ---- the loop in a shared helper (C08.1 / .2 / .3 / .7 follow the call from both copies)
+    _helper("helper-benign-faithful", None, note="seeded C08-I with the slip repaired: the refactor itself is silent"),
+    _helper("helper-benign-result-by-index-old-value", None, bind="    flow_function = maximum_flow(graph)[0]\n", value=None),
+    _helper("helper-benign-recompute-per-edge", None,
+            update=_U_OK + "            residual_graph, residual_function = residual_network(graph, flow_function)\n",
+            tail="        path = augmenting_path_for(residual_graph)\n",
+            value="    return sum(flow_function[0])",
+            note="the placement copy's indentation of the recomputation; the whole source row sums to the same value"),
+    _helper("helper-mirrored-update-dedented", "C08.2",
+            update="            flow_function[u][v] += delta\n        flow_function[v][u] -= delta\n",
+            note="seeded C08-I: the mirrored update runs for the last edge of the path only"),
+    _helper("helper-mirrored-update-in-for-else", "C08.2",
+            update="            flow_function[u][v] += delta\n        else:\n            flow_function[v][u] -= delta\n",
+            note="same effect through the loop's else clause"),
+    _helper("helper-mirrored-update-in-second-loop-over-tail", "C08.2",
+            update="            flow_function[u][v] += delta\n        for (u, v) in path[1:]:\n            flow_function[v][u] -= delta\n",
+            note="the mirrored updates skip the first edge of the path"),
+    _helper("helper-path-not-searched-again", "C08.1",
+            tail="        residual_graph, residual_function = residual_network(graph, flow_function)\n",
+            note="the remembered path is tested and applied again"),
+    _helper("helper-path-searched-before-recompute", "C08.1",
+            tail="        path = augmenting_path_for(residual_graph)\n"
+                 "        residual_graph, residual_function = residual_network(graph, flow_function)\n"),
+    _helper("helper-results-swapped", "C08.3", bind="    _, flow_function = maximum_flow(graph)\n",
+            note="the value is summed over the residual graph's source row"),
+    _helper("helper-value-slice-short", "C08.3", value="    return sum(flow_function[0][1:num_servers])"),
+    _helper("helper-network-of-sharemap", "C08.3", bind="    flow_function, _ = maximum_flow(_flow_network_for(sharemap))\n"),
+    _helper("helper-table-changed-by-the-caller", "C08.7",
+            bind=_B_OK + "    for v in graph[0]:\n        flow_function[0][v] = 1\n"),
+    _helper("helper-vanish-result-used-inline", "ANALYSIS-ERROR", bind="",
+            value="    return sum(maximum_flow(graph)[0][0][1:num_servers+1])",
+            note="correct, but the binding of the helper's result is not a form the rule follows: reported, not passed"),
+    _helper("helper-vanish-returns-a-dict", "ANALYSIS-ERROR", ret="    return {'flow': flow_function, 'residual': residual_graph}\n",
+            bind="    flow_function = maximum_flow(graph)['flow']\n"),
+    # the same loop shape without a helper
+    M("whilepath-benign-in-place", HZ, _SOH_LOOP, _SOH_WHILE_PATH + "        path = augmenting_path_for(residual_graph)\n", None),
+    M("whilepath-not-searched-again", HZ, _SOH_LOOP, _SOH_WHILE_PATH, "C08.1"),
+    M("mirrored-update-in-for-else", HZ, "            flow_function[u][v] += delta\n            flow_function[v][u] -= delta\n",
+      "            flow_function[u][v] += delta\n        else:\n            flow_function[v][u] -= delta\n", "C08.2"),
+    M("mirrored-update-dedented", HZ, "            flow_function[u][v] += delta\n            flow_function[v][u] -= delta\n",
+      "            flow_function[u][v] += delta\n        flow_function[v][u] -= delta\n", "C08.2"),
 
     # ---- vanished anchors
     M("vanish-bfs", HU, "def bfs(graph, s):", "def bfsX(graph, s):", "ANALYSIS-ERROR",
